@@ -624,7 +624,9 @@ impl Server {
                 Ok(data_reply(&buf[..got]))
             }
             "r_read_to_end" => {
-                let mut buf = Vec::new();
+                // "prefill": the caller's vector already holds that many bytes (read_to_end appends)
+                let prefill = req.get("prefill").and_then(|x| x.as_u64()).unwrap_or(0) as usize;
+                let mut buf = vec![b'#'; prefill];
                 match self.get(req)? {
                     Sess::SR(r) => ie(r.read_to_end(&mut buf))?,
                     Sess::SL(r) => ie(r.read_to_end(&mut buf))?,
@@ -634,7 +636,7 @@ impl Server {
                     Sess::AL(r) => ie(ab(r.read_to_end(&mut buf)))?,
                     _ => return Err(bad("not a reader".into())),
                 };
-                Ok(data_reply(&buf))
+                Ok(data_reply(&buf[prefill..]))
             }
             "r_stream" => {
                 // read to EOF with a buffer of n bytes per call, then check(); consumes the handle
